@@ -1,3 +1,208 @@
 package wm
 
-func runCanaries(dir string) string { return "" }
+import (
+	"fmt"
+	"strings"
+
+	"golang.org/x/tools/go/ssa"
+)
+
+// runCanaries analyses checker/testdata/canary with every primitive and
+// reports the first disagreement ("" = all primitives behave).
+func runCanaries(dir string) (msg string) {
+	defer func() {
+		if r := recover(); r != nil {
+			msg = fmt.Sprintf("panic: %v", r)
+		}
+	}()
+	p, err := Load(Config{Dir: dir, Prefix: "canary", Label: "canary"})
+	if err != nil {
+		return "cannot load canary package: " + err.Error()
+	}
+	var fails []string
+	expect := func(name string, got, want bool) {
+		canaryStats["assertions"]++
+		if got != want {
+			fails = append(fails, fmt.Sprintf("%s: got %v want %v", name, got, want))
+		}
+	}
+	fn := func(name string) *ssa.Function {
+		f := p.Func("", name)
+		if f == nil {
+			fails = append(fails, "missing canary function "+name)
+		}
+		return f
+	}
+	calls := func(f *ssa.Function, name string) []ssa.CallInstruction {
+		var out []ssa.CallInstruction
+		for _, c := range CallsIn(f) {
+			if cal := CalleeFn(c.Common()); cal != nil && cal.Name() == name {
+				out = append(out, c)
+			}
+		}
+		return out
+	}
+
+	// edge dominance
+	for _, tc := range []struct {
+		name string
+		want bool
+	}{{"GoodGuard", true}, {"BadGuard", false}} {
+		f := fn(tc.name)
+		if f == nil {
+			continue
+		}
+		w := calls(f, "work")
+		s := calls(f, "sink")
+		eq, _ := NilEdges(f, ResultOfAny(w, 0))
+		expect("GUARD "+tc.name, len(s) == 1 && len(eq) == 1 && GuardedBy(f, s[0], eq), tc.want)
+		canaryStats["guard"]++
+	}
+	// must-pass
+	for _, tc := range []struct {
+		name string
+		want bool
+	}{{"GoodSettle", true}, {"BadSettle", false}} {
+		f := fn(tc.name)
+		if f == nil {
+			continue
+		}
+		st := calls(f, "settle")
+		re := ReachEntry(f, NewCut().AddInstrs(instrsOf(st)...))
+		ok := true
+		for _, r := range Returns(f) {
+			if re[r] {
+				ok = false
+			}
+		}
+		expect("MUSTPASS "+tc.name, ok, tc.want)
+		canaryStats["mustpass"]++
+	}
+	// constant branch pruning
+	if f := fn("ConstBranch"); f != nil {
+		s := calls(f, "sink")
+		expect("CONSTBRANCH", len(s) == 1 && !Reachable(f, s[0]), true)
+		canaryStats["constbranch"]++
+	}
+	// lockset
+	box := p.Named("", "box")
+	if box == nil {
+		fails = append(fails, "missing canary type box")
+	} else {
+		la := NewLockAn(p, "")
+		mu := oneField(box, TypeIs("sync.Mutex"))
+		nf := oneField(box, TypeIs("int"))
+		id := la.canon(fieldID(mu))
+		for _, tc := range []struct {
+			name string
+			want bool
+		}{{"GoodLock", true}, {"BadLock", false}, {"GoodHandoff", true}, {"BadHandoff", false}} {
+			m := p.MethodOf(box, tc.name)
+			if m == nil {
+				fails = append(fails, "missing canary method "+tc.name)
+				continue
+			}
+			ok, n := true, 0
+			for _, a := range la.Accesses(nf) {
+				root := a.Ins.Parent()
+				for root.Parent() != nil {
+					root = root.Parent()
+				}
+				if root != m || !a.Write {
+					continue
+				}
+				n++
+				if la.Held(a.Ins)[id] != 'W' {
+					ok = false
+				}
+			}
+			expect("LOCKSET "+tc.name, ok && n == 1, tc.want)
+			canaryStats["lockset"]++
+		}
+	}
+	// blocking discipline
+	if f := fn("GoodSend"); f != nil {
+		ops := BlockingOps(f)
+		okAll := len(ops) == 2 // the third select is non-blocking
+		for _, op := range ops {
+			if op.Kind != "select" {
+				okAll = false
+				continue
+			}
+			esc := false
+			for _, cs := range op.Sel.Cases {
+				ck := ClassifyChan(cs.Chan)
+				if !cs.Send && (ck.Kind == "ctx.Done" || ck.Kind == "param") {
+					esc = true
+				}
+			}
+			if !esc {
+				okAll = false
+			}
+		}
+		sends := SendSites(f, func(ssa.Value) bool { return true })
+		expect("BLOCK GoodSend", okAll && len(sends) == 3, true)
+		nb := 0
+		for _, si := range Selects(f) {
+			if !si.Blocking && si.Default != nil {
+				nb++
+			}
+		}
+		expect("BLOCK GoodSend default edge", nb == 1, true)
+		canaryStats["block"]++
+	}
+	if f := fn("BadSend"); f != nil {
+		ops := BlockingOps(f)
+		expect("BLOCK BadSend", len(ops) == 1 && ops[0].Kind == "send", true)
+		canaryStats["block"]++
+	}
+	// loop direction
+	for _, tc := range []struct {
+		name string
+		dir  int
+		full bool
+	}{{"Descending", -1, true}, {"Ascending", +1, true}, {"Partial", +1, false}} {
+		f := fn(tc.name)
+		if f == nil {
+			continue
+		}
+		wl := FindWrapLoops(f)
+		expect("LOOP "+tc.name, len(wl) == 1 && wl[0].Dir == tc.dir && wl[0].Full == tc.full, true)
+		canaryStats["loop"]++
+	}
+	// origins
+	if f := fn("SpilledReturn"); f != nil {
+		w := calls(f, "work")
+		nNil, nErr := 0, 0
+		for _, vals := range ReturnValues(f, 1) {
+			if len(vals) == 1 && IsNilConst(vals[0]) {
+				nNil++
+			}
+			if len(vals) == 1 && ResultOfAny(w, 0)(vals[0]) {
+				nErr++
+			}
+		}
+		expect("ORIGINS SpilledReturn", nNil == 1 && nErr == 1, true)
+		canaryStats["origins"]++
+	}
+	if f := fn("CapturedResult"); f != nil {
+		cell := ResultCell(f, 0)
+		n := 0
+		if cell != nil {
+			for _, a := range f.AnonFuncs {
+				for _, st := range StoresToCellIn(a, cell) {
+					_, ne := NilEdges(a, IsLoadOfCell(cell))
+					if IsNilConst(st.Val) && GuardedBy(a, st, ne) {
+						n++
+					}
+				}
+			}
+		}
+		expect("ORIGINS CapturedResult", cell != nil && n == 1, true)
+		canaryStats["origins"]++
+	}
+	if len(fails) > 0 {
+		return strings.Join(fails, "; ")
+	}
+	return ""
+}
